@@ -2,12 +2,19 @@ package durablestream
 
 import (
 	"context"
+	"encoding/json"
 	"time"
 
 	eventbus "github.com/jilio/ebu"
 )
 
 var bg = context.Background()
+
+type evD struct {
+	N int `json:"n"`
+}
+
+func jsonOK(data []byte, v any) bool { return json.Unmarshal(data, v) == nil }
 
 type dsRec struct {
 	typ  string
